@@ -214,6 +214,14 @@ def run(ctx):
              "ion of D": sub(I.getattr(D, "ion"), 1), "neutron": sub(T, 0), "negative ion": sub(I.getattr(Fe, "ion"), -2)}
     PT = I.get_class("core.PeriodicTable")
     T2 = I.instantiate(PT, ["other"], {}, name="T2", open_attrs=())
+    # a later table is built from the same element data as the first (nothing accumulates in the module-level tables)
+    bad2 = []
+    for z, (name, sym, ions, uions) in base.items():
+        h2 = heap(sub(T2, z))
+        if h2.get("symbol") != sym or h2.get("name") != name.lower() or h2.get("ions") != tuple(sorted(ions + uions)):
+            bad2.append((z, sym, h2.get("ions")))
+    ctx.check(not bad2, "R2", "a second table has the same symbols, names and oxidation states as the first",
+              f"{bad2[:3]}: the element data changed while the first table was built", s_pt, sample={"elements": len(base)})
     for sym, A in (("Fe", 56), ("H", 1)):
         call(I.getattr(T2, sym), "add_isotope", sp.Integer(A))
     ct = I.global_name("core", "change_table")
